@@ -61,3 +61,39 @@ def check_root(tree, volume_bytes, problems):
         elif got[k] != want[k] or type(got[k]) is not type(want[k]):
             problems.append(f"/@{k}: {got[k]!r} != {want[k]!r}")
     return len(want), src
+
+
+def check_product(tree, files, info, problems):
+    """whole-product comparison: structure, root attributes, /metadata, every image group's line metadata and pixels.
+
+    -> number of leaves compared"""
+    import numpy as np
+
+    n = 0
+    imgs = info["names"]["imgs"]
+    if list(tree.children) != ["summary", "metadata", "imagery"]:
+        problems.append(f"children of / are {list(tree.children)}")
+        return n
+    want_groups = [harness.group_name(x) for x in imgs]
+    got_groups = list(tree["imagery"].children)
+    if got_groups != want_groups:
+        problems.append(f"/imagery children {got_groups} != expected {want_groups} (summary order)")
+    k, _ = check_root(tree, files[info["names"]["vol"]], problems)
+    n += k
+    k, _ = check_metadata(tree, files[info["names"]["led"]], problems)
+    n += k
+    for name, g in zip(imgs, want_groups):
+        if g not in got_groups:
+            continue
+        k, _ = check_image_group(tree, name, files[name], problems)
+        n += k
+        im = refdec.image(files[name])
+        try:
+            bits = refdec.bits_of(tree[f"imagery/{g}/data"].values)
+            want = refdec.samples_bits(im)
+            if bits.shape != want.shape or not np.array_equal(bits, want):
+                problems.append(f"/imagery/{g}: pixels are not those of {name}")
+            n += int(bits.size)
+        except Exception as e:  # noqa: BLE001
+            problems.append(f"/imagery/{g}: loading pixels raised {harness.exc_sig(e)}")
+    return n
